@@ -141,6 +141,15 @@ Theorem C04_source_in_args_are_model : forall sp s,
 Proof. intros. split; [apply gen_set_step_input_context_is_model|apply gen_unset_step_input_context_is_model]. Qed.
 Print Assumptions C04_source_in_args_are_model.
 
+(** in which namespace a !py expression is evaluated, read from the source
+    ([Context.get_eval_string]): a chain whose first map is a fresh empty dict made by that call, then
+    the context, then the imports — a name bound by := in one expression can neither reach the context
+    nor be seen by a later expression *)
+Theorem C04_source_eval_scope_is_fresh_chain :
+  gen_eval_scope = (["{}"; "self"; "self._pystring_globals"]%list, true).
+Proof. exact gen_eval_scope_is_fresh_chain. Qed.
+Print Assumptions C04_source_eval_scope_is_fresh_chain.
+
 (** * Non-vacuity: run expression changes between foreach iterations *)
 Definition lib4 : library :=
   [("main", [("steps", Some [
